@@ -25,7 +25,7 @@ ASSUMPTIONS = [
     "cycle computation audit: the class divides floats, which yields one extra cycle for some pairs (e.g. 100 MHz x 5 us "
     "-> 501); the audit accepts exact or exact+1 (a reset/STP time is a minimum) and rejects anything shorter",
 ]
-BOUNDS = "(reset, stop) in {1..6}x{1..6} cycles (quick: 10 pairs incl. stop>reset, stop<reset, equal), power_on_reset on and off; " \
+BOUNDS = "(reset, stop) in {1..6}x{1..6} cycles (quick: 10 pairs incl. stop>reset, stop<reset, equal), power_on_reset on (all pairs) and off (quick: 2 pairs; thorough: the 18 pairs with odd R+S); " \
          "BMC from reset K = 2*(R+S)+6 with trigger free every cycle (two complete sequences)"
 OUTSIDE = "zero-length reset or stop (ceil gives 0 cycles; the FSM has no zero-length path); lengths above 6 cycles except the " \
           "default 120/120 configuration in the thorough tier; the separate usb3 PHYResetController in usb3/physical/power.py"
@@ -154,7 +154,7 @@ def queries(tier):
     else:
         pairs = [(r, s) for r in range(1, 7) for s in range(1, 7)]
     for R, S in pairs:
-        for por in ((True, False) if (not quick or (R, S) in ((1, 2), (3, 2))) else (True,)):
+        for por in ((True, False) if ((not quick and (R + S) % 2 == 1) or (R, S) in ((1, 2), (3, 2))) else (True,)):
             tag = f"r{R}s{S}" + ("" if por else "_nopor")
             f = (lambda R=R, S=S, por=por: ResetHarness(R, S, por))
             K = 2 * (R + S) + 6
